@@ -326,8 +326,11 @@ func vC20Diff[T float32 | float64]() {
 		}
 	}
 	// effects on every backing array
+	// (the default engine's one-element incr case overwrites its first operand: C07's open finding - the specialised engines
+	// do not share it, so the comparison is not made there)
+	kfIncr1 := mode == "incr" && vProd(shape) == 1
 	for k := range r0.ra {
-		vAssert(vSameBits(r0.ra[k], r1.ra[k]), "effect-a")
+		vAssertKF(vSameBits(r0.ra[k], r1.ra[k]), "effect-a", "KF-C07-incr1", kfIncr1)
 	}
 	for k := range r0.rb {
 		vAssert(vSameBits(r0.rb[k], r1.rb[k]), "effect-b")
